@@ -86,3 +86,26 @@ CONTRACTS.append(Contract(
              ('class-level-results-are-class-paths',
               'implies(not isinstance(ObjectName, CIMInstanceName), forall(lambda k: isinstance(result[k], CIMClassName), 0, len(result)))')],
     raises=PARSE_ERR))
+
+# ---- structural checks of the response parser: check_node accepts exactly the nodes the DTD line describes
+# type invariant of tuple trees built by _tupletree.CIMContentHandler.startElement: (name, dict of attributes, children)
+NODE = TupleOf(Str, MapOf('str', 'str'), ListOf(('tuple', 'str', ('ref', 'dict'), ('ref', 'list'))))
+REQ_A, OPT_A, KIDS_A = ('NAME', 'TYPE'), ('OVERRIDABLE', 'TOSUBCLASS', 'TOINSTANCE', 'TRANSLATABLE', 'PROPAGATED', 'xml:lang'), \
+    ('VALUE', 'VALUE.ARRAY')
+CONTRACTS.append(Contract(
+    K + 'check_node', label='QUALIFIER line',
+    params={'self': TP, 'tup_tree': NODE, 'nodename': Lit('QUALIFIER'), 'required_attrs': Lit(REQ_A),
+            'optional_attrs': Lit(OPT_A), 'allowed_children': Lit(KIDS_A), 'allow_pcdata': Lit(False)},
+    loops={3: LoopSpec(target='child', types={'child': TupleOf(Str, Ref('dict'), Ref('list'))}, modifies=['invalid_children'],
+                       invariant=[('rejected-children-recorded',
+                                   'forall(lambda k: implies(tup_tree[2][k][0] not in allowed_children, len(invalid_children) >= 1), 0, _i)')])},
+    kinds={'invalid_children': 'str'},
+    ensures=[('element-name-is-the-expected-one', "tup_tree[0] == 'QUALIFIER'"),
+             ('required-attributes-present', "'NAME' in tup_tree[1] and 'TYPE' in tup_tree[1]"),
+             ('no-attribute-outside-the-DTD-line',
+              "forall(lambda a: implies(a in tup_tree[1], a in ('NAME', 'TYPE', 'OVERRIDABLE', 'TOSUBCLASS', 'TOINSTANCE', "
+              "'TRANSLATABLE', 'PROPAGATED', 'xml:lang')), 'str')"),
+             ('only-allowed-child-elements',
+              "forall(lambda k: tup_tree[2][k][0] in ('VALUE', 'VALUE.ARRAY'), 0, len(tup_tree[2]))"),
+             ('the-node-is-not-changed', 'tup_tree[1] == old(tup_tree[1])')],
+    raises=PARSE_ERR))
